@@ -46,6 +46,9 @@ func buildPathOps(m *Model, choices []int, salt uint64, maxOps int) (ops []Op, b
 			inv := m.pending
 			if polls < inv.Sched.Polls {
 				polls++
+				if tp.Chance(10, "snapwhilepending") {
+					ops = append(ops, Op{K: "snapshot"}) // the host may look at the runner while a command is pending
+				}
 				ops = append(ops, recordNext(m, junkArgs[int((salt+uint64(len(ops)))%uint64(len(junkArgs)))]))
 				continue
 			}
